@@ -509,7 +509,7 @@ fn gen_hist(r: &mut Rng, stats: &mut Stats, thorough: bool) -> Hist {
     let mut sleeps = 0;
     for i in 0..nsteps {
         let client = if flavour == 0 { heavy } else if r.chance(1, 2) { [127, 0, 1, 5] } else { *r.pick(&clients) };
-        let name = if r.chance(1, 2) { focus.clone() } else { r.pick(&names).clone() };
+        let name = if r.chance(3, 5) { focus.clone() } else { r.pick(&names).clone() };
         let tcp = r.chance(1, 6) && flavour != 0;
         let cookie = match r.below(8) {
             0 => Some(r.bytes(8)),
@@ -533,7 +533,7 @@ fn gen_hist(r: &mut Rng, stats: &mut Stats, thorough: bool) -> Hist {
             _ => None,
         };
         let edns = if r.chance(2, 3) || cookie.is_some() {
-            Some((*r.pick(&[512u16, 0, 1232, 4096, 700]), r.chance(1, 4), r.chance(1, 5), cookie))
+            Some((*r.pick(&[512u16, 0, 1232, 4096, 700]), r.chance(1, 8), r.chance(1, 5), cookie))
         } else {
             None
         };
@@ -542,7 +542,7 @@ fn gen_hist(r: &mut Rng, stats: &mut Stats, thorough: bool) -> Hist {
             rd: !r.chance(1, 8),
             cd: r.chance(1, 10),
             name,
-            qtype: if r.chance(1, 12) { 255 } else { *r.pick(&[1u16, 1, 1, 28, 16]) },
+            qtype: if r.chance(1, 12) { 255 } else { *r.pick(&[1u16, 1, 1, 1, 1, 28, 16]) },
             qclass: if r.chance(1, 15) { 3 } else { 1 },
             edns,
         };
